@@ -274,8 +274,39 @@ def run(ctx):
                     ctx.case((name, "truncate-form", v, lab), nontrivial=True)
             except Exception as ex:
                 ctx.impl_violation(f"{name}: vertices_to_polygon raised {type(ex).__name__}: {ex} for vertex {v} in one of the accepted forms", dict(case=name, op="truncate", lattice=zoo.lat_to_json(l), chosen=[int(v)]))
+        # a selection of several vertices as list, tuple, set, frozenset, dict keys, narrow-dtype array
+        sel = sorted(int(x) for x in rng.choice(l.n_vertices, size=min(5, l.n_vertices), replace=False))
+        try:
+            ref = canon_l(gu.vertices_to_polygon(l, np.array(sel)))
+            for lab, arg in (("list", list(sel)), ("tuple", tuple(sel)), ("set", set(sel)), ("frozenset", frozenset(sel)), ("dict keys", dict.fromkeys(sel).keys()),
+                             ("uint8 array", np.array(sel, dtype=np.uint8)), ("int16 array", np.array(sel, dtype=np.int16))):
+                if canon_l(gu.vertices_to_polygon(l, arg)) != ref:
+                    ctx.impl_violation(f"{name}: truncating vertices {sel} given as a {lab} differs from truncating the same indices as an int64 array", dict(case=name, op="truncate", lattice=zoo.lat_to_json(l), chosen=sel, form=lab))
+                ctx.case((name, "truncate-form-many", lab), nontrivial=True)
+        except Exception as ex:
+            ctx.impl_violation(f"{name}: vertices_to_polygon raised {type(ex).__name__}: {ex} for vertices {sel} in one of the accepted forms", dict(case=name, op="truncate", lattice=zoo.lat_to_json(l), chosen=sel))
         if canon_l(gu.vertices_to_polygon(l)) != canon_l(gu.vertices_to_polygon(l, np.arange(l.n_vertices))) or canon_l(gu.vertices_to_polygon(l, None)) != canon_l(gu.vertices_to_polygon(l, np.arange(l.n_vertices))):
             ctx.impl_violation(f"{name}: truncating with vertices=None differs from truncating all vertices", dict(case=name, op="truncate", lattice=zoo.lat_to_json(l), chosen=None))
+    # ---- input lattices whose index arrays have a narrow dtype, truncated to more vertices than that dtype can count (uint8: more than 256), once and twice
+    for name, lb, dt in (("honey7[uint8]", eg.honeycomb_lattice(7), np.uint8), ("honey3[uint8] twice", eg.honeycomb_lattice(3), np.uint8), ("vor40[int8]", zoo.voronoi(rng, 40), np.int8),
+                         ("honey12[int16]", eg.honeycomb_lattice(12), np.int16)):
+        P, E, C = zoo.raw(lb)
+        if len(P) - 1 > np.iinfo(dt).max:
+            continue
+        try:
+            wide = gu.vertices_to_polygon(Lattice(P.copy(), E.copy(), C.copy()))
+            narrow = gu.vertices_to_polygon(Lattice(P.copy(), E.astype(dt), C.astype(np.int8)))
+            if "twice" in name:
+                wide = gu.vertices_to_polygon(wide); narrow = gu.vertices_to_polygon(narrow)
+            same = (np.array_equal(np.asarray(wide.edges.indices, dtype=np.int64), np.asarray(narrow.edges.indices, dtype=np.int64)) and
+                    np.array_equal(np.asarray(wide.edges.crossing, dtype=np.int64), np.asarray(narrow.edges.crossing, dtype=np.int64)) and
+                    np.allclose(wide.vertices.positions, narrow.vertices.positions, atol=1e-12, rtol=0) and wide.n_plaquettes == narrow.n_plaquettes)
+            if not same:
+                ctx.impl_violation(f"{name}: truncating a lattice built from {np.dtype(dt).name} edge indices gives a different lattice ({narrow.n_vertices} vertices) than truncating the same lattice built from int64 indices",
+                                   dict(case=name, op="truncate", lattice=zoo.lat_to_json(lb), dtype=np.dtype(dt).name))
+        except Exception as ex:
+            ctx.impl_violation(f"{name}: vertices_to_polygon raised {type(ex).__name__}: {ex}", dict(case=name, op="truncate", lattice=zoo.lat_to_json(lb), dtype=np.dtype(dt).name))
+        ctx.case((name, "narrow dtype"), nontrivial=True)
     # ---- make_dual with both centre rules on one and the same lattice object, in both orders: each call is what it is on a fresh lattice
     for name, l0 in [("vor16", zoo.voronoi(rng, 16)), ("vor20-xy", cut_boundaries(zoo.voronoi(rng, 20)))]:
         raw = zoo.raw(l0)
